@@ -239,7 +239,29 @@ func stubRemove(name string) error {
 	if vFail("remove") {
 		return vPathErr("remove", os.ErrPermission)
 	}
+	if e.isDir {
+		// unlink(2)/rmdir(2): a directory that still has entries is not removed
+		for p, c := range vDisk {
+			if c.exists && filepath.Dir(p) == name {
+				return vPathErr("remove", vENOTEMPTY)
+			}
+		}
+	}
 	delete(vDisk, name)
+	vObserve()
+	return nil
+}
+
+var vENOTEMPTY = vNewErr("directory not empty")
+
+// os.RemoveAll: removes the path and, if it is a directory, everything below it; a missing path is not an error
+func stubRemoveAll(name string) error {
+	for p, e := range vDisk {
+		if e.exists && (p == name || strings.HasPrefix(p, name+"/")) {
+			vTouched = append(vTouched, p)
+			delete(vDisk, p)
+		}
+	}
 	vObserve()
 	return nil
 }
